@@ -93,3 +93,34 @@ Section Client.
           | SError => DVError
           end).
 End Client.
+
+(* ---------- the life cycle of one Client value: Connect / Close / Send in any order ---------- *)
+Inductive conn_outcome :=
+| DialFails          (* tls.Dial returned an error: refused, not a TLS peer, certificate not verified, ... *)
+| Connects.          (* dialled and handshaken *)
+Inductive cop := CConnect (o : conn_outcome) | CClose | CSend.
+
+(* c.conn != nil; c.e / c.d != nil *)
+Record clife := { has_conn : bool; has_codec : bool }.
+Definition clife0 : clife := {| has_conn := false; has_codec := false |}.
+
+Inductive cout :=
+| LOk          (* Connect / Close returned *)
+| LErr         (* Connect failed; Send: "not connected" *)
+| LExchange    (* Send goes on to the exchange with the peer (function [send] above) *)
+| LPanic.      (* Send dereferences a nil encoder *)
+
+Definition clife_step (s : clife) (o : cop) : clife * cout :=
+  match o with
+  | CConnect Connects => ({| has_conn := true; has_codec := true |}, LOk)
+  | CConnect DialFails => ({| has_conn := false; has_codec := has_codec s |}, LErr)  (* c.conn, err = tls.Dial(..): nil on failure *)
+  | CClose => ({| has_conn := false; has_codec := has_codec s |}, LOk)
+  | CSend => (s, if negb (has_conn s) then LErr else if has_codec s then LExchange else LPanic)
+  end.
+
+Fixpoint clife_run (s : clife) (ops : list cop) : list cout :=
+  match ops with
+  | [] => []
+  | o :: r => let '(s', x) := clife_step s o in x :: clife_run s' r
+  end.
+
